@@ -281,4 +281,174 @@ theorem toScope_handleStartTag (s : St) (vm vm' : SelVM.Vm) (hv : s.vm = some vm
       simp only [hlen, if_false, Bool.false_eq_true]
       rw [hitems, scopeStack_incLast]
 
+/-! ### end tags: `pop_up_to` -/
+
+open LolHtml.SelVM in
+theorem rposition_cons {α : Type} (p : α → Bool) (x : α) (xs : List α) :
+    rposition p (x :: xs) =
+      match rposition p xs with
+      | some i => some (i + 1)
+      | none => if p x then some 0 else none := by
+  unfold rposition
+  simp only [List.reverse_cons, List.findIdx?_append, List.length_reverse, List.length_cons]
+  cases hf : xs.reverse.findIdx? p with
+  | some k =>
+    have hk : k < xs.length := by
+      have := (List.findIdx?_eq_some_iff_getElem.mp hf).1
+      simpa using this
+    simp only [Option.some_or]
+    congr 1
+    omega
+  | none =>
+    simp only [Option.none_or, List.findIdx?_cons, List.findIdx?_nil]
+    by_cases hp : p x = true
+    · simp [hp]
+    · simp [hp]
+
+open LolHtml.SelVM in
+theorem splitLast_eq_rposition {α : Type} (p : α → Bool) (l : List α) :
+    Controller.splitLast p l = (rposition p l).map fun i => (l.take i, l.drop i) := by
+  induction l with
+  | nil => rfl
+  | cons x xs ih =>
+    rw [rposition_cons]
+    simp only [Controller.splitLast, ih]
+    cases rposition p xs with
+    | some i => rfl
+    | none =>
+      by_cases hp : p x = true
+      · simp [hp]
+      · simp [hp]
+
+theorem splitLast_zipWith {α β γ : Type} (f : α → β → γ) (p' : γ → Bool) (q : α → Bool)
+    (hpq : ∀ x y, p' (f x y) = q x) : ∀ (a : List α) (b : List β), a.length = b.length →
+    Controller.splitLast p' (List.zipWith f a b) =
+      (Controller.splitLast q a).map fun kd =>
+        (List.zipWith f kd.1 (b.take kd.1.length), List.zipWith f kd.2 (b.drop kd.1.length)) := by
+  intro a
+  induction a with
+  | nil => intro b h; cases b <;> simp at h ⊢ <;> rfl
+  | cons x xs ih =>
+    intro b h
+    cases b with
+    | nil => simp at h
+    | cons y ys =>
+      simp only [List.length_cons, Nat.add_right_cancel_iff] at h
+      simp only [List.zipWith_cons_cons, Controller.splitLast, ih ys h]
+      cases Controller.splitLast q xs with
+      | some kd => rfl
+      | none =>
+        simp only [Option.map_none, hpq]
+        by_cases hq : q x = true
+        · simp [hq]
+        · simp [hq]
+
+/-- the `open_name_counts` pre-check of `pop_up_to` agrees with the items (from package selvm's
+`StackInv`: `countsOk`, `counts`) -/
+def PreOk (st : SelVM.Stack) : Prop :=
+  ∀ name : Bytes, (st.openNameCounts.any fun e => e.1 == asciiLowerBytes name) = false →
+    ∀ it ∈ st.items, Sel.localNameEq it.localName name = false
+
+open LolHtml.SelVM in
+theorem rposition_lt {α : Type} (p : α → Bool) (l : List α) (i : Nat) (h : rposition p l = some i) : i < l.length := by
+  unfold rposition at h
+  split at h
+  · rename_i k hk
+    have hk' : k < l.length := by
+      have := (List.findIdx?_eq_some_iff_getElem.mp hk).1
+      simpa using this
+    simp only [Option.some.injEq] at h
+    omega
+  · cases h
+
+open LolHtml.SelVM in
+theorem rposition_none_of_all_false {α : Type} (p : α → Bool) (l : List α) (h : ∀ x ∈ l, p x = false) :
+    rposition p l = none := by
+  unfold rposition
+  have : l.reverse.findIdx? p = none := by
+    rw [List.findIdx?_eq_none_iff]
+    intro x hx
+    exact h x (by simpa using hx)
+  rw [this]
+
+open LolHtml.SelVM in
+/-- `Stack::pop_up_to` in closed form -/
+theorem popUpTo_closed (st st' : Stack) (name : Bytes) (drained : List StackItem) (hpre : PreOk st)
+    (h : st.popUpTo name = .ok (st', drained)) :
+    match rposition (fun it => Sel.localNameEq it.localName name) st.items with
+    | none => st'.items = st.items ∧ drained = []
+    | some i => st'.items = st.items.take i ∧ drained = st.items.drop i := by
+  unfold Stack.popUpTo at h
+  split at h
+  · rename_i hany
+    have hany' : (st.openNameCounts.any fun e => e.1 == asciiLowerBytes name) = false := by simpa using hany
+    rw [rposition_none_of_all_false _ _ (hpre name hany')]
+    simp only [pure, Except.pure, Except.ok.injEq, Prod.mk.injEq] at h
+    exact ⟨by rw [← h.1], h.2.symm⟩
+  · split at h
+    · rename_i hr
+      rw [hr]
+      simp only [pure, Except.pure, Except.ok.injEq, Prod.mk.injEq] at h
+      exact ⟨by rw [← h.1], h.2.symm⟩
+    · rename_i index hr
+      rw [hr]
+      simp only [bind, Except.bind, pure, Except.pure] at h
+      split at h
+      · cases h
+      · simp only [Except.ok.injEq, Prod.mk.injEq] at h
+        exact ⟨by rw [← h.1], h.2.symm⟩
+
+/-- **end tag, controller part**: `exec_for_end_tag` + `stop_matching` for the drained items is package
+scope's `Controller.handleEndTag` for the lower-cased name. -/
+theorem toScope_handleEndTag (s : St) (vm vm' : SelVM.Vm) (hv : s.vm = some vm) (hs : Sync s)
+    (hpre : PreOk vm.stack) (name : Bytes) (popped : List SelVM.StackItem)
+    (he : vm.execForEndTag name = .ok (vm', popped)) :
+    popped.length ≤ s.descs.length ∧
+    (toScope s).handleEndTag (asciiLowerBytes name) =
+      (stopMatchingPopped s.disp popped (s.descs.drop (s.descs.length - popped.length))).map fun d =>
+        toScope { s with disp := d, vm := some vm', descs := s.descs.take (s.descs.length - popped.length) } := by
+  have hl : vm.stack.items.length = s.descs.length := by
+    have := hs; simp only [Sync, hv] at this; exact this.symm
+  have hpop : vm.stack.popUpTo name = .ok (vm'.stack, popped) := by
+    unfold SelVM.Vm.execForEndTag at he
+    simp only [bind, Except.bind, pure, Except.pure] at he
+    split at he
+    · cases he
+    · rename_i r hr
+      simp only [Except.ok.injEq, Prod.mk.injEq] at he
+      rw [hr, ← he.1, ← he.2]
+  have hcl := popUpTo_closed _ _ _ _ hpre hpop
+  have hpq : ∀ (it : SelVM.StackItem) (de : Desc),
+      (fun it : Controller.StackItem => decide (it.name = asciiLowerBytes name)) (scopeItem it de) =
+        (fun it : SelVM.StackItem => Sel.localNameEq it.localName name) it := by
+    intro it de
+    simp only [scopeItem, Sel.localNameEq, eqIgnoreAsciiCase]
+    rw [Bool.eq_iff_iff]
+    simp only [beq_iff_eq]
+    exact decide_eq_true_iff
+  unfold Controller.Controller.handleEndTag toScope
+  simp only [hv, Option.map_some, Controller.popUpTo, scopeStack]
+  rw [splitLast_zipWith scopeItem _ _ hpq _ _ hl, splitLast_eq_rposition]
+  cases hr : SelVM.rposition (fun it : SelVM.StackItem => Sel.localNameEq it.localName name) vm.stack.items with
+  | none =>
+    rw [hr] at hcl
+    obtain ⟨h1, h2⟩ := hcl
+    subst h2
+    simp only [Option.map_none, List.length_nil, Nat.zero_le, true_and, Nat.sub_zero, List.drop_length,
+      stopMatchingPopped, Except.map, List.take_length, h1, hv]
+  | some i =>
+    rw [hr] at hcl
+    obtain ⟨h1, h2⟩ := hcl
+    have hi : i ≤ vm.stack.items.length := Nat.le_of_lt (rposition_lt _ _ _ hr)
+    have hplen : popped.length = vm.stack.items.length - i := by rw [h2]; simp
+    have hkeep : s.descs.length - popped.length = i := by rw [hplen, ← hl]; omega
+    refine ⟨by rw [hplen, ← hl]; omega, ?_⟩
+    simp only [Option.map_some, List.length_take, Nat.min_eq_left hi, hkeep]
+    rw [← h2, stopMatchingPopped_eq _ _ _ (by rw [hplen, List.length_drop, ← hl])]
+    unfold scopeStack
+    cases Controller.stopMatchingAll s.disp (List.zipWith scopeItem popped (List.drop i s.descs)) with
+    | error e => rfl
+    | ok d =>
+      simp only [Except.map, h1]
+
 end LolHtml.Model.Full
